@@ -396,7 +396,7 @@ def run(ctx: Ctx) -> int:
     if missing:
         raise MachineryError(f"vacuous model: calls never taken in any emitted sequence: {sorted(missing)}")
     rng = random.Random(ctx.seed * 1000003 + 77)
-    budget = 9000 if tier == "quick" else 120000
+    budget = 9000 if tier == "quick" else 80000
     if len(gen) > budget:
         gen = rng.sample(gen, budget)
     embs = ["int", "dec", "third", "off", "half", "tiny", "big", "flt"]
@@ -404,7 +404,7 @@ def run(ctx: Ctx) -> int:
     for i, g in enumerate(gen):
         for mode in ("all", "none"):
             cases.append({"doc": g["doc"], "steps": g["steps"], "mode": mode, "emb": embs[i % len(embs)]})
-    nrand = 300 if tier == "quick" else 4000
+    nrand = 300 if tier == "quick" else 3000
     for i in range(nrand):
         d = api_doc(rng)
         st = random_steps(rng, d, rng.randint(5, 9))
